@@ -298,11 +298,21 @@ def gen_spec(rng, index=0):
             g.loops[nm] = base_len if same else g.ri(2, 9)
     nouts = int(rng.choice([1, 2, 3], p=[.4, .4, .2]))
     outs = []
+    mode = str(rng.choice(['once', 'compile2', 'once', 'compile_par_call_ser'], p=[.45, .4, .1, .05]))
+    if rng.random() < .1:
+        # an outer loop whose run-time length is 1 (no fork happens, maxprocs stays n) around nested inner loops
+        g.loops['i'] = dict(arg='ni', value=1, value2=int(rng.choice([2, 3, 5])), max=9)
+        g.features.add('runtime-length-1-around-inner-loops')
+        m = g.ri(1, 3)
+        P, Q = g.inner_loop(), g.inner_loop()
+        g.loops[P] = g.ri(3, 6)
+        outs.append(['lsum', ['lsum', ['mul', g.new_arg((m,)), ['mul', ['row', g.ftable(P, m), P, 'f'], ['ins', ['f', ['add', ['idx', 'i'], ['idx', P]]], m]]], P], 'i'])
+        outs.append(['lsum', ['sum', ['lcat', ['mul', ['row', g.ftable(Q, m), Q, 'f'], ['ins', ['f', ['add', ['idx', 'i'], ['c', 1, 'i']]], m]], Q]], 'i'])
+        mode = 'compile2' if rng.random() < .5 else 'once'
     for o in range(max(nouts, nouter)):
         L = names[o % nouter]
         others = [n for n in names if n != L]
         outs.append(g.output(L, others))
-    mode = str(rng.choice(['once', 'compile2', 'once', 'compile_par_call_ser'], p=[.45, .4, .1, .05]))
     loops = {k: (dict(arg=v['arg'], value=v['value'], value2=v['value2']) if isinstance(v, dict) else v) for k, v in g.loops.items()}
     return dict(kind='ev', index=index, loops=loops, outer=names, outs=outs, args=g.args, mode=mode, features=sorted(g.features))
 
@@ -365,7 +375,7 @@ class TopoCase:
         if op == 'integrate_multi':
             return self.sample.integrate([b[:, None] * b[None, :] * J, b * u * J, u**2 * J, (g * u).sum() * J], arguments=self.args)
         if op == 'integrate_mass':
-            return self.sample.integrate(function.outer(b) * (1 + u**2) * J, arguments=self.args),
+            return self.sample.integrate(b[:, None] * b[None, :] * (1 + u**2) * J, arguments=self.args),
         if op == 'integrate_coo':
             return function.eval(function.as_coo(self.sample.integral(b[:, None] * b[None, :] * J)))
         if op == 'integrate_boundary':
